@@ -790,7 +790,7 @@ fn main() {
     }
     if args.replay.is_none() {
         let mut rng = Rng::new(args.seed);
-        let n = args.cases.unwrap_or(if args.thorough { 40000 } else { 2500 });
+        let n = args.cases.unwrap_or(if args.thorough { 20000 } else { 2500 });
         for i in 0..n {
             let c = gen_case(&mut rng);
             if i < 4 {
